@@ -420,6 +420,8 @@ def sz1(ctx):
         d_len = bool(sl) and all(any(b.dominates(p, e) for p in sl) for e in exits)
         seeks = []
         for (p, e, cs) in ctx.E.direct_sites(b):
+            if e == 'SEEK' and cs.name.endswith('::rewind'):
+                seeks.append(p)
             if e == 'SEEK' and len(cs.args) > 1:
                 al = cs.arg_local(1)
                 if al is not None:
